@@ -14,6 +14,7 @@ import (
 
 	"github.com/anishathalye/porcupine"
 
+	"verif/sim/simnet"
 	"verif/sim/simrt"
 	"verif/sim/sipwire"
 )
@@ -56,6 +57,9 @@ var rotationModel = porcupine.Model{
 				if a != in.Addr {
 					S = append(S, a)
 				}
+			}
+			if len(S) == len(st.S) {
+				return true, st // not registered: nothing changes, the rotation goes on
 			}
 			return true, rotState{S: S}
 		}
@@ -111,6 +115,15 @@ func genRotationPlan(seed uint64, tier string) *Plan {
 		// C05 (i): through the proxy, membership by name resolution, with the rotation oracle
 		p := genMembershipPlan(seed, tier)
 		p.Variant = "through-the-proxy"
+		if g.chance(60) {
+			// "dispatches racing with membership changes made from other threads": unpinned requests that arrive at the
+			// very instant the resolver polls
+			for i := range p.Ops {
+				if p.Ops[i].Kind == "poll" {
+					p.Ops[i].I["race"] = g.pick2(0, 1, 3, 6)
+				}
+			}
+		}
 		return p
 	}
 	p := &Plan{Variant: "racing-threads"}
@@ -127,6 +140,8 @@ func genRotationPlan(seed uint64, tier string) *Plan {
 	c.Name = "svc.example.com"
 	c.Listens = []ListenCfg{{Addr: "10.0.0.1", UDP: 5060, Backends: []string{"udp://10.2.0.1:5070"}}}
 	c.Faults = simnetNoFaults()
+	// the write towards the backend whose turn it is fails now and then: the turn is used up all the same
+	c.Faults.UDPWriteErrPct = g.pick2(0, 0, 10, 35)
 	universe := 4
 	total := g.rng(2, 7)
 	if g.chance(25) {
@@ -156,6 +171,12 @@ func genRotationPlan(seed uint64, tier string) *Plan {
 			continue
 		}
 		a := rotAddrs[g.intn(universe)]
+		if !present[a] && g.chance(12) {
+			// an address that is not registered is withdrawn (the resolver does that for an address whose backend
+			// could not be created): a no-op
+			p.Ops = append(p.Ops, Op{Kind: "remove", S: map[string]string{"addr": a, "absent": "1"}, I: map[string]int{"g": owner[a]}})
+			continue
+		}
 		kind := "add"
 		if present[a] {
 			kind = "remove"
@@ -247,10 +268,11 @@ func execRotation(t *testing.T, p *Plan) *Result {
 					switch op.Kind {
 					case "dispatch":
 						from := h.emitted()
+						ffrom := h.failed()
 						call := h.stamp()
 						rb.Send(msgs[k])
 						ret := h.stamp()
-						out := h.targetOf(fmt.Sprintf("disp%d", k), from)
+						out := h.targetOf(fmt.Sprintf("disp%d", k), from, ffrom)
 						h.record(porcupine.Operation{ClientId: gi, Input: rotIn{"dispatch", ""}, Call: call, Output: out, Return: ret})
 					case "add":
 						if h.isPresent(addr) {
@@ -265,7 +287,7 @@ func execRotation(t *testing.T, p *Plan) *Result {
 						rb.AddBackend(be)
 						h.record(porcupine.Operation{ClientId: gi, Input: rotIn{"add", addr}, Call: call, Output: "", Return: h.stamp()})
 					case "remove":
-						if !h.isPresent(addr) {
+						if !h.isPresent(addr) && op.S["absent"] == "" {
 							continue
 						}
 						h.setPresent(addr, false)
@@ -399,22 +421,29 @@ func (h *rotHarness) emitted() int { return len(h.w.N.Emissions) }
 // targetOf: where the datagram carrying id went ("none", or a+b if sent twice).
 //
 //go:norace
-func (h *rotHarness) targetOf(id string, from int) string {
+func (h *rotHarness) targetOf(id string, from, ffrom int) string {
 	out := "none"
-	ems := h.w.N.Emissions
 	needle := "X-Sim-Id: " + id + "\r\n"
-	for i := from; i < len(ems); i++ {
-		e := ems[i]
-		if containsNoRace(e.Data, needle) {
-			if out != "none" {
-				out = out + "+" + e.Dst
-			} else {
-				out = e.Dst
+	scan := func(ems []*simnet.Emission, from int) {
+		for i := from; i < len(ems); i++ {
+			e := ems[i]
+			if containsNoRace(e.Data, needle) {
+				if out != "none" {
+					out = out + "+" + e.Dst
+				} else {
+					out = e.Dst
+				}
 			}
 		}
 	}
+	scan(h.w.N.Emissions, from)
+	// a dispatch whose datagram write failed was still directed at its backend: its turn is used up
+	scan(h.w.N.FailedUDP, ffrom)
 	return out
 }
+
+//go:norace
+func (h *rotHarness) failed() int { return len(h.w.N.FailedUDP) }
 
 //go:norace
 func containsNoRace(b []byte, s string) bool {
